@@ -308,10 +308,105 @@ fn stage_doc(i: &Input, c: &mut Case) -> Result<(), String> {
     Ok(())
 }
 
-pub const STAGES: &[Stage] = &[Stage { name: "every_cut", f: stage_doc }];
+/// the same oracle on a document with one payload larger than the 64 KiB default buffer: the cuts are sampled (every position would be
+/// ~10^5 parses of ~10^5 bytes each) — around the element's start and end, around multiples of 64 KiB inside the payload, and at random
+fn stage_big(i: &Input, c: &mut Case) -> Result<(), String> {
+    let mut t = Tape::new(i.tape());
+    crate::dynspec::set_current(crate::gen::rich());
+    let big_len = 65_000 + t.below(80_000);
+    let blob = Node::leaf(0xa3, Payload::B(t.filler(big_len)));
+    let small = |t: &mut Tape| {
+        let n = 1 + t.below(40);
+        Node::leaf(0xa3, Payload::B(t.filler(n)))
+    };
+    let mut group = vec![Node::leaf(0xe7, Payload::U(t.below(1000) as u64))];
+    if t.chance(1, 2) {
+        group.push(small(&mut t));
+    }
+    group.push(blob);
+    if t.chance(1, 2) {
+        group.push(Node::leaf(0xe7, Payload::U(7)));
+    }
+    let mut body = vec![Node::master(0x1f43b675, group)];
+    if t.chance(1, 2) {
+        body.push(Node::master(0x1f43b675, vec![small(&mut t)]));
+    }
+    let mut forest = vec![Node::master(0x1a45dfa3, vec![Node::leaf(0x4286, Payload::U(1))]), Node::master(0x18538067, body)];
+    // some masters with unknown size, some size fields wider than needed
+    if t.chance(1, 3) {
+        forest[1].enc.unknown = true;
+        forest[1].enc.size_w = 8;
+    }
+    if t.chance(1, 3) {
+        if let Some(ch) = forest[1].children_mut() {
+            ch[0].enc.size_w = 4 + t.below(5) as u8;
+        }
+    }
+    fix_widths(&mut forest);
+    let (bytes, lay) = ref_encode(&forest);
+    let flat = flatten(&forest);
+    let pos = flat_positions(&forest);
+    let len = bytes.len();
+    let big = lay.iter().find(|l| !l.is_master && l.payload_end - l.header_end == big_len).ok_or("harness: big element not found in the layout")?;
+    let mut cuts: Vec<usize> = vec![big.tag_start, big.tag_start + 1, big.header_end, big.header_end + 1, big.payload_end - 1, big.payload_end, len - 1, len];
+    for k in 1..=2usize {
+        for d in [-2i64, -1, 0, 1, 2, 17] {
+            let v = big.header_end as i64 + (k as i64) * 65536 + d;
+            if v > big.header_end as i64 && (v as usize) < big.payload_end {
+                cuts.push(v as usize);
+            }
+            let v2 = (k as i64) * 65536 + d;
+            if v2 > 0 && (v2 as usize) < len {
+                cuts.push(v2 as usize);
+            }
+        }
+    }
+    for _ in 0..6 {
+        cuts.push(t.below(len + 1));
+    }
+    cuts.sort();
+    cuts.dedup();
+    let cap = match t.weighted(&[5, 3, 2]) {
+        0 => None,
+        1 => Some(*t.pick(&[16usize, 64, 4096])),
+        _ => Some(70_000),
+    };
+    let chunk = *t.pick(&[0usize, 0, 4093, 65536, 100_000]);
+    let cfg = ReadCfg { capacity: cap, ..ReadCfg::default() };
+    c.label_if(cap.is_some(), "small_capacity");
+    c.label_if(chunk > 0, "chunked_source");
+    c.sample_with(|| format!("{} bytes with a {}-byte Blob at {}, {} sampled cuts, reads of {} | cfg {}", len, big_len, big.tag_start, cuts.len(), if chunk == 0 { "any size".to_string() } else { format!("{} bytes", chunk) }, cfg.render()));
+    let mut inside_big = 0u64;
+    for &p in &cuts {
+        let prefix = &bytes[..p];
+        let obs = if chunk == 0 {
+            read_all::<crate::dynspec::RichSpec>(prefix, &cfg)
+        } else {
+            let steps: Vec<RStep> = (0..p.div_ceil(chunk)).map(|_| RStep::Chunk(chunk)).collect();
+            read_from::<crate::dynspec::RichSpec, _>(ScriptRead::new(prefix, steps), &cfg, item_bound(p))
+        };
+        c.checks += 1;
+        check_cut(&obs, &flat, &lay, &pos, &bytes, p).map_err(|m| {
+            let m: String = m.chars().take(1500).collect();
+            format!("{}\n  document of {} bytes with a {}-byte Blob at offset {}\n  cfg: {} reads of {}", m, len, big_len, big.tag_start, cfg.render(), chunk)
+        })?;
+        if p > big.header_end + 65536 && p < big.payload_end {
+            inside_big += 1;
+        }
+    }
+    c.units = cuts.len() as u64;
+    c.nontrivial_units = inside_big;
+    c.label_n("cut_beyond_64k_of_available_payload", inside_big);
+    c.key(&(big_len, &cuts, cap, chunk));
+    Ok(())
+}
+
+pub const STAGES: &[Stage] = &[Stage { name: "every_cut", f: stage_doc }, Stage { name: "big_payload_cuts", f: stage_big }];
 
 pub fn run(rc: &mut RunCtx) {
     rc.run_pt(STAGES[0], rc.pick(32_000, 200_000), (96, 400));
+    rc.run_pt(STAGES[1], rc.pick(1_500, 12_000), (32, 64));
+    rc.require_label("big_payload_cuts", "cut_beyond_64k_of_available_payload", 3_000);
     rc.require_label("every_cut", "unknown_size", 50_000);
     rc.require_label("every_cut", "source_1byte_reads", 100_000);
     if !rc.quick() {
